@@ -204,6 +204,7 @@ def snell(n1, n2, theta1):
         theta2 = np.arcsin(n1 * np.sin(np.deg2rad(theta1)) / n2)
 
     elif np.all(np.isreal(n1)):
+        n1 = np.real(n1)
         mr2 = (np.real(n2) / n1)**2
         mi2 = (np.imag(n2) / n1)**2
         sin1 = np.sin(np.deg2rad(theta1))
